@@ -115,7 +115,9 @@ var hDocs = []hDoc{
 	{`subscription S { ticks }`, "S", "subscription", "S"},
 	{`{ me { nam } }`, "", "", ""}, // validation error
 	{`{ me { name }`, "", "", ""},  // parse error
-	{``, "", "", ""},               // no query at all
+	{`{ me { name } }`, "Other", "", ""},                        // anonymous operation, a name requested
+	{`mutation { rename(name: "x") { id } }`, "Other", "", ""}, // the same for a mutation
+	{``, "", "", ""},                                            // no query at all
 }
 
 type hAccept struct {
